@@ -10,6 +10,9 @@
 //	                                 -> lhs=<the lighthouse list now in force>
 //	msg <from,..> <type> <ver 0|1|2|3> <vpn|-> <v4 aps|-> <v6 aps|-> <oldrelays|-> <relays|->
 //	        -> S[to:type:vpn:v4:v6:relays;..] P[target>vpn,..] T[addr|-]
+//	bad <from,..> <type> <ver> <vpn|-> <v4|-> <v6|-> <oldrelays|-> <relays|-> <tailhex>
+//	                                 the bytes of that message followed by <tail>, which makes Unmarshal fail AFTER the
+//	                                 message has been decoded into the handler's reused scratch      -> same format
 //	nodetails <from,..> <type>       (a NebulaMeta without Details)        -> same format
 //	raw <from,..> <hex>              (arbitrary bytes)                      -> same format
 //	dump                             addrMap: key>list-id ... {list contents}
@@ -89,6 +92,36 @@ func gen(r *hlib.Rand, n int, tier, profile string, emit func(string, ...any)) {
 		allow := hlib.Pick(r, "-", "-", "00000000/0=T,c0a80000/16=F", "c0000200/24=T", "00000000/0=T,c0000209/32=F,00000000000000000000000000000000/0=F", "08080808/32=F",
 			"00000000/0=T~0a000000/24~c0000209/32=F", "00000000/0=T~0a000002/32~00000000/0=F,c0000200/24=T", "08080808/32=F~0a000000/24~09ffffff/32=F,c0a80000/16=F", "00000000/0=T~0a000003/32~00000000/0=F")
 		emit("gate %s %d %s %s", hlib.Pick(r, "hs1", "hs2", "roam", "roam"), hlib.Pick(r, 1, 2), allow, hlib.AddrPortHex(netip.MustParseAddrPort(from)))
+	}
+	// deterministic preamble: an undecodable packet with a decodable prefix carrying attacker data (v4 / v6 addresses,
+	// old and new relays, a claimed owner) from an ordinary peer and from a lighthouse, immediately followed by an
+	// authorised message of every type from ANOTHER sender; on a lighthouse and on an ordinary node
+	{
+		evil4 := "06060606:666,06060607:666"
+		evil6 := hlib.AddrPortHex(netip.MustParseAddrPort("[2001:db8::666]:666")) + "," + hlib.AddrPortHex(netip.MustParseAddrPort("[::ffff:6.6.6.8]:666"))
+		peerP, peerV, lh1, lh2 := hx("10.128.0.11"), hx("10.128.0.10"), hx("10.128.0.2"), hx("10.128.0.3")
+		for _, lhNode := range []bool{true, false} {
+			for _, attacker := range []string{peerP, lh2} {
+				for _, ver := range []int{2, 1} {
+					if lhNode {
+						emit("reset lh=1 v=%d nets=0a800001/24 lhs=- st=- cr=- G -", ver)
+					} else {
+						emit("reset lh=0 v=%d nets=0a800001/24 lhs=%s,%s st=%s@46010102:4242;%s@46010103:4242 cr=- G -", ver, lh1, lh2, lh1, lh2)
+					}
+					for _, typ := range []int{3, 2, 5, 1, 3} {
+						sender := peerV
+						if !lhNode && (typ == 2 || typ == 5) {
+							sender = lh1
+						}
+						tail := hlib.Pick(r, "ff", "0f", "1a05", "ff")
+						emit("bad %s %d %d %s %s %s %s %s %s", attacker, typ, ver, peerV, evil4, evil6, hx("10.128.0.30"), hx("10.128.0.31")+","+hx("fd80::30"), tail)
+						emit("msg %s %d %d %s 01010101:4242 %s - %s", sender, typ, ver, peerV, hlib.AddrPortHex(netip.MustParseAddrPort("[2001:db8::1]:4242")), hx("10.128.0.32"))
+						emit("dump")
+					}
+					emit("msg %s 1 %d %s - - - -", hx("10.128.0.12"), ver, peerV)
+				}
+			}
+		}
 	}
 	for i := 0; i < n; {
 		amLH := r.Chance(1, 2)
@@ -279,6 +312,14 @@ func gen(r *hlib.Rand, n int, tier, profile string, emit func(string, ...any)) {
 			if nReload > 0 && r.Chance(1, 4) {
 				nReload--
 				reload()
+				i++
+			}
+			if r.Chance(1, 12) {
+				// an undecodable packet right before whatever comes next
+				emit("bad %s %d %d %s %s %s %s %s %s", from(), hlib.Pick(r, 1, 2, 3, 5, r.Intn(12)), hlib.Pick(r, 1, 2, 0), hx(hlib.Pick(r, peers...)),
+					listOf(r, hlib.Pick(r, 0, 1, 3), func() string { return ap4(r) }), listOf(r, hlib.Pick(r, 0, 1, 2), func() string { return ap6(r) }),
+					listOf(r, hlib.Pick(r, 0, 1), func() string { return hx("10.128.0.30") }), listOf(r, hlib.Pick(r, 0, 1, 2), func() string { return hx(hlib.Pick(r, "10.128.0.31", "fd80::30")) }),
+					hlib.Pick(r, "ff", "0f", "1a05"))
 				i++
 			}
 			switch r.Intn(20) {
@@ -652,7 +693,7 @@ func newExec(t *testing.T) func([]string) string {
 			}
 			synctest.Wait()
 			return "lhs=" + addrs(lh.GetLighthouses())
-		case "msg":
+		case "msg", "bad":
 			from := parseAddrs(a[1])
 			d := &nebula.NebulaMetaDetails{}
 			var vpn netip.Addr
@@ -688,6 +729,15 @@ func newExec(t *testing.T) func([]string) string {
 			b, err := m.Marshal()
 			if err != nil {
 				panic(err)
+			}
+			if a[0] == "bad" {
+				// a valid NebulaMeta followed by bytes that make the generated Unmarshal fail: everything before the
+				// tail is decoded into the handler's scratch before the error is returned
+				tail, _ := hlib.UnHex(a[9])
+				b = append(b, tail...)
+				if (&nebula.NebulaMeta{}).Unmarshal(b) == nil {
+					return "decodes"
+				}
 			}
 			return handle(from, b)
 		case "nodetails":
